@@ -21,6 +21,10 @@ def usub (m a b : Nat) : Nat := (a + m - b % m) % m
 def umul (m a b : Nat) : Nat := (a * b) % m
 /-- conversion of a signed value to an unsigned type of modulus `m` -/
 def toU (m : Nat) (x : Int) : Nat := (x % (m : Int)).toNat
+/-- conversion to a SIGNED type of modulus `m = 2^w` (narrowing, or unsigned of the same width): wraps into `[-m/2, m/2)` -/
+def toS (m : Nat) (x : Int) : Int :=
+  let r := x % (m : Int)
+  if r < (m : Int) / 2 then r else r - (m : Int)
 
 theorem uadd_small {m a b : Nat} (h : a + b < m) : uadd m a b = a + b := by
   unfold uadd; exact Nat.mod_eq_of_lt h
